@@ -104,6 +104,19 @@ Theorem C03_zero_residual : forall m (K : list (list R)) c (g : list (list R)) k
    nth k (@convolve ROps c (@slim_of ROps g (unmasked m)) (@slim_of ROps g (unmasked (bmask c)))) 0 = 0)%R.
 Proof. exact zero_residual. Qed.
 
+(* the public method (own odd-kernel check, no footprint condition): even kernels rejected, otherwise the
+   full convolution of the native image at the unmasked pixels; and it agrees with the convolver *)
+Theorem C03_whole_frame_method : forall m (g : list (list R)) (K : list (list R)),
+  @convolved_array_checked ROps m g K =
+  if oddb (rows K) && oddb (cols K) then Ok (map (@conv_full ROps (@img_fun ROps g) K) (unmasked m))
+  else Raise KernelException.
+Proof. exact whole_checked_cases. Qed.
+Theorem C03_whole_frame_method_agrees : forall m (K : list (list R)) c (g : list (list R)),
+  rectb m = true -> @convolver_init ROps m K = Ok c ->
+  @convolved_array_checked ROps m g K =
+  Ok (@convolve ROps c (@slim_of ROps g (unmasked m)) (@slim_of ROps g (unmasked (bmask c)))).
+Proof. exact whole_checked_agrees. Qed.
+
 (* ---- non-vacuity: a 4x5 frame, L-shaped mask of three pixels, asymmetric signed 3x3 kernel ---- *)
 Definition ex_m : mask := [[true; true; true; true; true]; [true; false; false; true; true];
                            [true; true; false; true; true]; [true; true; true; true; true]].
@@ -129,3 +142,4 @@ Print Assumptions C03_convolve_matrix_columnwise. Print Assumptions C03_convolve
 Print Assumptions C03_operator_is_linear. Print Assumptions C03_outside_irrelevant.
 Print Assumptions C03_even_kernel_rejected. Print Assumptions C03_footprint_outside_rejected.
 Print Assumptions C03_convolver_init_cases. Print Assumptions C03_whole_frame_agrees. Print Assumptions C03_zero_residual.
+Print Assumptions C03_whole_frame_method. Print Assumptions C03_whole_frame_method_agrees.
